@@ -41,6 +41,9 @@ Succ(s, e) ==
        ELSE IF e.asked /\ e.prov = "ok" /\ e.ret = e.pval
             THEN {[t EXCEPT !.seen = @ \cup {[x |-> e.x, t |-> now, v |-> e.pval]}], t}      \* storing is the cache's choice
        ELSE IF \E r \in Fresh(s, e.x, now) : r.v = e.ret THEN {t}
+       \* last resort: no provider answers now - the last known block count may be served although its time is over
+       \* (ServiceFailover!View "cached-or-fail"); a fee estimate may not
+       ELSE IF e.x = "blockcount" /\ e.asked /\ e.prov = "fail" /\ \E r \in s.seen : r.x = e.x /\ r.v = e.ret THEN {t}
        ELSE {}
 
 \* why an event is not allowed (for the verdict)
